@@ -88,7 +88,7 @@ PROPS["C10"] = dict(
     extra=[extras.c10_miri],
     runs=[dict(bin="c10")],
     quick=dict(n=400, shards=16),
-    thorough=dict(n=20000, shards=128, run_timeout=10800, coq_case_timeout=7200, args=["--thorough-sizes"]),
+    thorough=dict(n=8000, shards=128, run_timeout=10800, coq_case_timeout=7200, args=["--thorough-sizes"]),
     trusted_base=[
         "ownership model coq/C10/Model.v of inmem/src/index.rs with three designs under clone_mode: Owned = the current code after /repo 20c1ef6 (t2i keys and i2t entries each own their strings; Clone copies both), Rebuilt = the previous code (i2t entries pointed into the keys, Clone rebuilt them), Derived = the original derived Clone; Drop, moves, growth, bulk constructors, clone_from, mem::take/replace/swap and terms cloned OUT of a store (escaped_clone_safe; the old designs are refuted: derived_clone_refuted, term_clone_escapes_refuted) (hand-written)",
         "hook SimpleTermIndex::verif_audit / verif_term_index (cfg sophia_verif) reports, per index, whether i2t[i] holds the term of the key mapped to i (an owned copy with the same text, or a borrow of that very key); the harness compares it with the model's audit",
